@@ -147,7 +147,7 @@ def rule_table(facts):
         else:
             r.ok("evaluation", {role: "for all 128 control bytes 0x80..0xFF: %s" % {"reset_dict": ">= 0xE0", "reset_state": ">= 0xA0", "reset_props": ">= 0xC0"}[role]})
     # decompress: status 1 -> reset true, 2 -> false
-    d = pat.body_of(facts, "Lzma2Decoder::decompress")
+    d = pat.chunk_loop_body(facts)
     if d is not None:
         tmd = Terms(d)
         gs, _ = pat.guards(d)
